@@ -127,3 +127,9 @@ proof('C04', 'Machine-checked (kernel only, no native evaluation) for the fastma
       'within relative 5e-8 of the exact ones (integer comparisons, decide +kernel); rounding analysis of the three fused multiply-adds per row (relative for non-negative pixels, absolute otherwise); the clamp at 0 (cbrtf(0) is a constant below 1e-13); Cbrt.cbrtf_close (seed + two binary64 Halley steps + final rounding, '
       'within 2^-24+1e-11 relative); cube-root perturbation bounds; the final add/sub/halving. With fastmath off cbrtf is the libm parameter of the model and the clause rests on the correspondence and the oracle.',
       'Lean 4: rounding-error analysis over the reals incl. a kernel-checked accuracy proof of cbrtf; correspondence ties the model to the code')
+
+proof('C05', 'Machine-checked (kernel only) for the fastmath build: C05.roundtrip / api_roundtrip - for images of any size, dimensions and pixel order are preserved and EVERY finite pixel of [0,1]^3 comes back from XYB within 5e-5 per component (proved bound 4.4e-5). '
+      'The proof follows the values through both functions: forward mixes (relative rounding analysis), cbrtf (Cbrt.cbrtf_close), the inverse recombines Y+X and Y-X into the forward L and M up to 2.6e-7, removes the bias with the SAME constant (cbrtf(-b) = -cbrtf(b) bit for bit, evaluated by the kernel), '
+      'cubes with one fused multiply-add and applies the inverse matrix (dot-product rounding analysis). The real identity behind it is INV*K = I for the two constant tables of the source: checked in exact rational arithmetic on the regenerated constants (mat_id: row sums of |INV*K - I| at most 6e-7), '
+      'so an inverse table, bias or cube law that no longer agrees with the forward constants breaks the theorem. With fastmath off cbrtf is the libm parameter of the model; that build rests on correspondence + oracle.',
+      'Lean 4: end-to-end rounding-error analysis of the round trip over the reals + exact rational INV*K = I check on regenerated constants; correspondence ties the model to the code')
